@@ -405,4 +405,150 @@ def mergeTextRaw (resultFiles : List (List Row)) (texts : List (List Char)) : Ex
   let out ← mergeRaw resultFiles (texts.map readTsv)
   pure (writeTsv out)
 
+/-! ### The two identifier conventions of `parse_percolator_out_file_to_dict` (`--pout_input_type`)
+
+`andromeda` (default): `parse_andromeda_psmid_and_peptide(psm_id, peptide[2:-2])` — raw file, scan and
+sequence from the identifier and the peptide cell ALONE (`andromedaKey`).
+`prosit`: `parse_prosit_psmid_and_peptide(psm_id, peptide[2:-2], filename, convert_to_proforma)` — the
+`filename` cell IS the raw file when it is not empty, and it fixes where the scan number sits in the
+dash-separated identifier. -/
+
+/-- the key the andromeda branch files a result row under: a function of the identifier and the
+    peptide cell, of nothing else -/
+def andromedaKey (psmId peptide : String) : Except String (String × Int × String) :=
+  let parts := splitOn '_' psmId.toList
+  if parts.length < 3 then .error "bad_psmid"
+  else
+    match parseInt? (parts.getD (parts.length - 3) []) with
+    | none => .error "bad_scan"
+    | some scan => .ok (String.ofList (joinChars '_' (dropLast3 parts)), scan, resultModSeq peptide)
+
+/-- `s.count(c)` for a one-character `c` -/
+def countChar (c : Char) (s : List Char) : Nat := (s.filter (· = c)).length
+
+/-- Python `l[i]` for any integer `i` (`none` = IndexError) -/
+def pyIndex {α} (l : List α) (i : Int) : Option α :=
+  if i < 0 then (if (l.length : Int) + i < 0 then none else l[((l.length : Int) + i).toNat]?)
+  else l[i.toNat]?
+
+/-- Python `l[:i]` for any integer `i` -/
+def pySliceTo {α} (l : List α) (i : Int) : List α :=
+  if i < 0 then l.take ((l.length : Int) + i).toNat else l.take i.toNat
+
+/-- Python `int(float(s))` on the inputs the model covers: optional sign, one or more ASCII digits,
+    optionally `.` and further digits (cut off: truncation toward zero).  Exponents, `inf`, `nan`,
+    white space, `_`, a missing integer part and integers beyond 2^53 are outside the model. -/
+def parseIntFloat? (cs : List Char) : Option Int :=
+  let (sign, body) : Int × List Char := match cs with
+    | '-' :: t => (-1, t)
+    | '+' :: t => (1, t)
+    | t => (1, t)
+  let ip := body.takeWhile (· ≠ '.')
+  let rest := body.dropWhile (· ≠ '.')
+  if ip.isEmpty then none else
+    match parseDigits 0 ip with
+    | none => none
+    | some n =>
+      match rest with
+      | [] => some (sign * n)
+      | _ :: frac => (parseDigits 0 frac).map (fun _ => sign * n)
+
+def prositPrefixes : List (List Char) :=
+  ["[UNIMOD:737]", "[UNIMOD:2016]", "[UNIMOD:214]", "[UNIMOD:730]"].map String.toList
+
+/-- `rest` when `p` is a prefix of `s` -/
+def stripPrefix? : List Char → List Char → Option (List Char)
+  | [], s => some s
+  | _ :: _, [] => none
+  | a :: p, b :: s => if a = b then stripPrefix? p s else none
+
+/-- the alternative `(m)` of the regular expression: every `m` becomes `M[UNIMOD:35]` -/
+def mapOxM : List Char → List Char
+  | [] => []
+  | c :: t => if c = 'm' then "M[UNIMOD:35]".toList ++ mapOxM t else c :: mapOxM t
+
+/-- `modifications.prosit_mod_to_proforma()(s)`: `re.sub` with
+    `(m)|(^\[UNIMOD:737\]-?)|(^\[UNIMOD:2016\]-?)|(^\[UNIMOD:214\]-?)|(^\[UNIMOD:730\]-?)` —
+    an N-terminal label at the very start gets exactly one `-` after it, every `m` is oxidised M -/
+def prositToProforma (s : List Char) : List Char :=
+  match prositPrefixes.findSome? (fun p => (stripPrefix? p s).map (fun rest => (p, rest))) with
+  | some (p, rest) => p ++ '-' :: mapOxM (match rest with | '-' :: r => r | r => r)
+  | none => mapOxM s
+
+/-- the key the prosit branch files a result row under: reads the identifier, the peptide cell and
+    the `filename` cell (`parse_prosit_psmid_and_peptide`) -/
+def prositKey (psmId peptide filename : String) : Except String (String × Int × String) :=
+  let m := (slice 2 2 peptide).toList                 -- `row[pept_col][2:-2]`
+  let dm : Int := countChar '-' m
+  let numFields : Int :=
+    if filename.isEmpty then 5
+    else (countChar '-' psmId.toList : Int) - countChar '-' filename.toList - dm + 1
+  let idx : Int := -1 * (numFields - 1) - dm
+  let parts := splitOn '-' psmId.toList
+  match pyIndex parts idx with
+  | none => .error "bad_psmid"                         -- IndexError
+  | some tok =>
+    match parseIntFloat? tok with
+    | none => .error "bad_scan"                        -- ValueError in `float(...)`
+    | some scan =>
+      let raw := if filename.isEmpty then String.ofList (joinChars '-' (pySliceTo parts idx)) else filename
+      .ok (raw, scan, String.ofList (prositToProforma m))
+
+def parsedOfKey (k : String × Int × String) (val : Val) : ParsedResult :=
+  { raw := k.1, scan := k.2.1, modSeq := k.2.2, val := val }
+
+/-- one result row under the identifier convention given (`prosit = true` ⇔ `input_type == "prosit"`;
+    every other value of `--pout_input_type` takes the andromeda branch) -/
+def parseCells (prosit : Bool) (x : ResultCells) : Except String ParsedResult :=
+  if prosit then (prositKey x.psmId x.peptide x.filename).map (parsedOfKey · (x.score, x.pep))
+  else parseResultRow x.andromeda
+
+/-- one file of `parse_percolator_out_file_to_dict`: header resolution, then row by row the cells and
+    the identifier (the first malformed row stops the file with ITS error) -/
+def parsedRowsOf (prosit : Bool) (file : List Row) : Except String (List ParsedResult) :=
+  match file with
+  | [] => .error "no_header"
+  | hdr :: rows => do
+    let c ← percCols hdr
+    rows.mapM (fun r => do
+      let x ← rowCells c r
+      parseCells prosit x)
+
+/-- `get_percolator_results(pout_files, pout_input_type)[1]`: the dictionary, from the raw files
+    (file by file, row by row — also for the error that is raised first) -/
+def buildResultsOf (prosit : Bool) (files : List (List Row)) : Except String Results := do
+  let parsed ← files.mapM (parsedRowsOf prosit)
+  pure (parsed.flatten.foldl insertParsed [])
+
+def fixedModsUnimod : List (List Char) := prositPrefixes  -- FIXED_MODS_UNIMOD: TMT, TMTpro, iTRAQ4, iTRAQ8
+
+/-- the fixed-modification detection of one file (prosit branch): the first row selects the LAST label of
+    `FIXED_MODS_UNIMOD` it contains, any later row without that label resets to "none".
+    Result = index into `FIXED_MODS_DICTS` (0 = default). -/
+def fixedModIdx (modSeqs : List (List Char)) : Nat :=
+  match modSeqs with
+  | [] => 0
+  | first :: later =>
+    let pick := (fixedModsUnimod.zipIdx.filter (fun (u, _) => containsSub u first)).getLast?.map (fun (_, i) => i + 1)
+    match pick with
+    | none => 0
+    | some k =>
+      let u := fixedModsUnimod.getD (k - 1) []
+      -- `elif fixed_mod_idx >= 0: if MOD not in seq: fixed_mod_idx = -1` — once reset it stays reset
+      if later.all (fun s => containsSub u s) then k else 0
+
+/-- `parse_percolator_out_file_to_dict(file, …, input_type)[0]` as an index into `FIXED_MODS_DICTS`
+    (defined when the file parses) -/
+def fixedModsOf (prosit : Bool) (file : List Row) : Except String Nat := do
+  let cs ← resultCellsOf file
+  let parsed ← cs.mapM (parseCells prosit)
+  pure (if prosit then fixedModIdx (parsed.map (·.modSeq.toList)) else 0)
+
+/-- the cells of a result row that the andromeda branch reads, in two layouts of the same data:
+    identifier, peptide, score, PEP agree; a `filename` column, where one exists, is only required to
+    be THERE (the row reaches it) — its value is free -/
+def SameReadCells (c c' : PercCols) (r r' : Row) : Prop :=
+  r[c.id]? = r'[c'.id]? ∧ r[c.peptide]? = r'[c'.peptide]? ∧ r[c.score]? = r'[c'.score]? ∧ r[c.pep]? = r'[c'.pep]? ∧
+  (∀ f, c.filename = some f → f < r.length) ∧ (∀ f, c'.filename = some f → f < r'.length)
+
 end PgFdr.C15
